@@ -62,6 +62,8 @@ type e2eScenario struct {
 	RespTrl   []kv     `json:"resptrl"`
 	Resp      []msgSc  `json:"resp"`
 	Out       outSc    `json:"out"`
+	Shared    bool     `json:"shared"` // use the process-wide client for this configuration (C13)
+	Echo      bool     `json:"echo"`   // bidi: the handler echoes; the client sends and receives concurrently
 }
 
 func init() { families["e2e"] = runE2E }
@@ -309,6 +311,24 @@ func e2eHandler(sc *e2eScenario) *connect.Handler {
 		h = connect.NewBidiStreamHandler(e2eProc, func(_ context.Context, bs *connect.BidiStream[BV, BV]) error {
 			st := stateOf(bs.RequestHeader())
 			var ids []int
+			if st.sc.Echo {
+				addAll(bs.ResponseHeader(), st.sc.RespHdr)
+				addAll(bs.ResponseTrailer(), st.sc.RespTrl)
+				for {
+					m, err := bs.Receive()
+					if err != nil {
+						st.sawRequest(bs.RequestHeader(), connect.Spec{}, ids...)
+						if isEOF(err) {
+							return nil
+						}
+						return err
+					}
+					ids = append(ids, st.table.ID(m.Value))
+					if err := bs.Send(m); err != nil {
+						return err
+					}
+				}
+			}
 			for {
 				m, err := bs.Receive()
 				if err != nil {
@@ -446,10 +466,20 @@ func runE2E(raw json.RawMessage, seed int64, rec *Rec) {
 	} else {
 		httpClient = &memTransport{h: h, major: sc.HTTP}
 	}
-	client := connect.NewClient[BV, BV](httpClient, url, e2eClientOpts(&sc)...)
+	var client *connect.Client[BV, BV]
+	if sc.Shared && sc.Transport != "loop" {
+		// one client and one handler per configuration for the whole process; the tap of this exchange is
+		// found through the scenario id header
+		client = sharedClient(&sc)
+		sharedTaps.Store(sid, tap)
+		defer sharedTaps.Delete(sid)
+	} else {
+		client = connect.NewClient[BV, BV](httpClient, url, e2eClientOpts(&sc)...)
+	}
 	ctx := context.Background()
 
 	cMsgs := []int{}
+	var retained [][]byte // what user code was handed: must stay intact while and after other calls run
 	var cerr error
 	var chdr, ctrl http.Header
 	setHdr := func(h http.Header) {
@@ -463,6 +493,7 @@ func runE2E(raw json.RawMessage, seed int64, rec *Rec) {
 		res, err := client.CallUnary(ctx, req)
 		cerr = err
 		if err == nil {
+			retained = append(retained, res.Msg.Value)
 			cMsgs = append(cMsgs, st.table.ID(res.Msg.Value))
 			chdr, ctrl = res.Header(), res.Trailer()
 		}
@@ -478,6 +509,7 @@ func runE2E(raw json.RawMessage, seed int64, rec *Rec) {
 		res, err := cs.CloseAndReceive()
 		cerr = err
 		if err == nil {
+			retained = append(retained, res.Msg.Value)
 			cMsgs = append(cMsgs, st.table.ID(res.Msg.Value))
 			chdr, ctrl = res.Header(), res.Trailer()
 		}
@@ -490,6 +522,7 @@ func runE2E(raw json.RawMessage, seed int64, rec *Rec) {
 			break
 		}
 		for ss.Receive() {
+			retained = append(retained, append([]byte(nil), ss.Msg().Value...)) // Msg() is reused by the next Receive
 			cMsgs = append(cMsgs, st.table.ID(ss.Msg().Value))
 		}
 		cerr = ss.Err()
@@ -498,6 +531,35 @@ func runE2E(raw json.RawMessage, seed int64, rec *Rec) {
 	default:
 		bs := client.CallBidiStream(ctx)
 		setHdr(bs.RequestHeader())
+		if sc.Echo {
+			var wg sync.WaitGroup
+			wg.Add(1)
+			go func() { // the sending goroutine
+				defer wg.Done()
+				for _, m := range sc.Req {
+					if err := bs.Send(st.payload(m)); err != nil {
+						rec.Add(E("csend", "code", codeOf(err), "eof", isEOF(err)))
+						break
+					}
+				}
+				_ = bs.CloseRequest()
+			}()
+			for { // the receiving goroutine
+				m, err := bs.Receive()
+				if err != nil {
+					if !isEOF(err) {
+						cerr = err
+					}
+					break
+				}
+				retained = append(retained, m.Value)
+				cMsgs = append(cMsgs, st.table.ID(m.Value))
+			}
+			wg.Wait()
+			chdr, ctrl = bs.ResponseHeader(), bs.ResponseTrailer()
+			_ = bs.CloseResponse()
+			break
+		}
 		for _, m := range sc.Req {
 			if err := bs.Send(st.payload(m)); err != nil {
 				rec.Add(E("csend", "code", codeOf(err), "eof", isEOF(err)))
@@ -513,11 +575,13 @@ func runE2E(raw json.RawMessage, seed int64, rec *Rec) {
 				}
 				break
 			}
+			retained = append(retained, m.Value)
 			cMsgs = append(cMsgs, st.table.ID(m.Value))
 		}
 		chdr, ctrl = bs.ResponseHeader(), bs.ResponseTrailer()
 		_ = bs.CloseResponse()
 	}
+	earlyErr := errView(cerr)
 
 	// the exchange is over once the handler returned (the tap is complete then)
 	for i := 0; i < 2000; i++ {
@@ -630,8 +694,15 @@ func runE2E(raw json.RawMessage, seed int64, rec *Rec) {
 	tap.mu.Unlock()
 
 	// ---- what the client's API yielded ----
-	rec.Add(E("csaw", "ok", cerr == nil, "ids", cMsgs, "err", errView(cerr),
-		"hdr", appHeaders(chdr), "trl", appHeaders(ctrl)))
+	// look again at everything the client was handed, after the exchange is over (and, in shared mode, while
+	// other calls are running): nothing may have changed under the application's feet
+	lateIDs := []int{}
+	for _, v := range retained {
+		lateIDs = append(lateIDs, st.table.ID(v))
+	}
+	lateErr := errView(cerr)
+	rec.Add(E("csaw", "ok", cerr == nil, "ids", cMsgs, "err", earlyErr,
+		"hdr", appHeaders(chdr), "trl", appHeaders(ctrl), "late_ids", lateIDs, "late_msg", lateErr["msg"]))
 }
 
 func nz(a []int) []int {
@@ -649,3 +720,32 @@ func nz2(a [][]int) [][]int {
 }
 
 var _ = sort.Strings
+
+// ---- shared clients (C13): one client per configuration, used by all scenarios concurrently ---------
+
+var (
+	sharedClients sync.Map // config key -> *connect.Client[BV, BV]
+	sharedTaps    sync.Map // scenario id -> *Tap
+)
+
+// sharedDispatch serves every shared exchange: the scenario (handler configuration, tap) is found by id.
+var sharedDispatch = http.HandlerFunc(func(w http.ResponseWriter, r *http.Request) {
+	sid := r.Header.Get("X-Verif-Sid")
+	st := stateOf(r.Header)
+	t, ok := sharedTaps.Load(sid)
+	if st == nil || !ok {
+		http.Error(w, "verif: unknown scenario", http.StatusTeapot)
+		return
+	}
+	tapped(e2eHandler(st.sc), t.(*Tap)).ServeHTTP(w, r)
+})
+
+func sharedClient(sc *e2eScenario) *connect.Client[BV, BV] {
+	key := fmt.Sprintf("%s|%s|%s|%d|%v|%d", sc.Proto, sc.Codec, sc.Csend, sc.Cmin, sc.Cacc, sc.HTTP)
+	if c, ok := sharedClients.Load(key); ok {
+		return c.(*connect.Client[BV, BV])
+	}
+	c := connect.NewClient[BV, BV](&memTransport{h: sharedDispatch, major: sc.HTTP}, "http://verif.test"+e2eProc, e2eClientOpts(sc)...)
+	actual, _ := sharedClients.LoadOrStore(key, c)
+	return actual.(*connect.Client[BV, BV])
+}
